@@ -10,9 +10,13 @@ META = {
             'the Lean model (exact, names included) and checked directly: valid total DFA, same alphabet, language equal (exact '
             'product BFS, all word lengths), q0 = closure name, every state reachable; non-trivial = NFA with an epsilon move and '
             '>=2 subset states; distinct by content',
-    'assumptions': ['NFA.valid (constructor); state names match \\w+ so that print_state_set is injective on subsets'],
+    'assumptions': ['NFA.valid (constructor)', 'print_state_set is injective on the reachable subsets (decided per case by the reference; a case where the set notation itself merges two subsets is the recorded finding nfa2dfa-subset-name-collision)'],
     'trusted_base': ['Spec: Gamba/Spec/Automata.lean'],
 }
+
+
+# legal str names on which the set notation may or may not stay injective
+ODD = lambda j: ['', 'q', 'p', '{p,q}', 'p,q', '{q}', '{}', 'r'][j]
 
 
 def cases(ctx):
@@ -25,7 +29,7 @@ def cases(ctx):
             yield {'N': s}
     rng = ctx.rng
     for i in range(1200 if not thorough else 12000):
-        s = gen.random_nfa(rng)
+        s = gen.random_nfa(rng, names=ODD if i % 25 == 7 else None)
         if not thorough or ctx.mine(i):
             yield {'N': s, 'sched': [rng.randint(0, 5) for _ in range(8)]}
 
@@ -39,6 +43,16 @@ def judge(ctx, c, answers):
     before = (enc.canon_nfa(N, drop_empty=False), str(N))
     got = call(nfa_to_dfa, N)
     la = answers[0]
+    col = oracles.subset_name_collision(N)
+    if col is not None:
+        # the documented naming scheme itself merges two distinct subsets: recorded finding, decided on the reference naming
+        ctx.count('subset-name-collision')
+        ok = 'ok' in got and oracles.dfa_valid(got['ok']) and oracles.distinguish(N, got['ok'], N.Sigma) is None
+        if not ok:
+            ctx.violation('subset-dfa-name-collision', {'case': c, 'subsets': col, 'impl': got if 'ok' not in got else enc.canon_dfa(got['ok'])},
+                          finding_key='nfa2dfa-subset-name-collision')
+        ctx.case(c, False)
+        return
     if 'ok' not in got:
         ctx.violation('nfa_to_dfa-raises', {'case': c, 'impl': got})
         return
